@@ -185,8 +185,9 @@ def judge_sheet(spec, settings, passthrough=(), name="s.css"):
     sheet = G.Sheet(spec, passthrough)
     ob = O.run_sheet(sheet.text, settings, name=name)
     vs = judge_obs(sheet, settings, ob)
-    for v in vs:
-        v["case"]["name"] = name
+    if name != "s.css":
+        for v in vs:
+            v["case"]["name"] = name
     return vs
 
 
